@@ -120,10 +120,10 @@ def skeleton_report():
         rep["error"] = "unexpected report output:\n" + out[-1500:]
         return rep
     rep["obligations"] = {m.group(1): m.group(2) == "true"
-                          for m in re.finditer(r'\("([a-z_]+)",\s*(true|false)\)', bl[0])}
-    rep["bad_client_sends"] = re.findall(r'\("([^"]+)",\s*(\d+)\)', bl[1])
-    rep["bad_edges"] = re.findall(r'\("([^"]+)",\s*(K[A-Za-z]+),\s*(\d+)\)', bl[2])
-    rep["bad_peer_closes"] = re.findall(r'\("([^"]+)",\s*(\d+)\)', bl[3])
+                          for m in re.finditer(r'\(\s*"([a-z_]+)",\s*(true|false)\s*\)', bl[0])}
+    rep["bad_client_sends"] = re.findall(r'\(\s*"([^"]+)",\s*(\d+)\s*\)', bl[1])
+    rep["bad_edges"] = re.findall(r'\(\s*"([^"]+)",\s*(K[A-Za-z]+),\s*(\d+)\s*\)', bl[2])
+    rep["bad_peer_closes"] = re.findall(r'\(\s*"([^"]+)",\s*(\d+)\s*\)', bl[3])
     rep["nonconforming"] = re.findall(r'"([^"]+)"', bl[4])
     rep["detail"] = bl[5][:6000]
     m = re.findall(r"(\d+)%nat", bl[6])
